@@ -175,6 +175,40 @@ def run(M, rep, tier, only=None):
                   "after unlinking one matching child delete_all stops looking at the remaining children of that group: "
                   "further links to deleted entities in the same list survive", site=f.file + ":%d" % f.node.lineno)
 
+    # ---- R6: H5Group.delete itself (raw mode)
+    R6 = rep.rule("C04.R6", "H5Group.delete unlinks the named child and at most its own emptied list group -- nothing further up", floor=1,
+                  technique="receivers and guards of every raw unlink on all abstract paths")
+    from nixsa.px import Config as _Config
+    rawcfg = _Config(M, mode="raw")
+    rawcfg.compose = False
+    dl = hg.methods.get("delete") if hg else None
+    if dl is None:
+        rep.bad(R6, "H5Group.delete", "required mechanism not found")
+    else:
+        bad = None
+        nchild = 0
+        for p in explore(rawcfg, dl, "H5Group", None, 6000):
+            uns = [e for e in p.events if e.kind == "raw" and e.op.split(".")[-1] in ("__delitem__", "pop") and
+                   e.kw.get("__effect__") is not None and e.kw["__effect__"].t[1] in ("U",)]
+            own = 0
+            for e in uns:
+                keyp = params_of(e.key.t) if e.key is not None else set()
+                if "id_or_name" in keyp or (e.key is not None and "get_by_id" in show(e.key.t)) or (e.key is not None and "name" in show(e.key.t) and "self.name" not in show(e.key.t)):
+                    nchild += 1
+                    continue
+                # unlinking the receiver itself from its parent: only under delete_if_empty, once, not inside a loop
+                guarded = any(pol and "delete_if_empty" in params_of(c.t) for c, pol in e.ctrl) or any(
+                    a[0] == "truthy" and a[1] == ("param", "delete_if_empty") and v is True for a, v in p.decisions)
+                if e.key is not None and show(e.key.t) == "self.name" and guarded and not e.loop:
+                    own += 1
+                    continue
+                bad = (p, e, "unlinks %s[%s]" % (show(e.recv.t)[:60], show(e.key.t) if e.key is not None else "?"))
+            if own > 1:
+                bad = (p, uns[-1], "removes more than its own emptied group")
+        rep.check(R6, "H5Group.delete", bad is None and nchild > 0, ("H5Group.delete %s: removing one link can take the owner of the list (or "
+                  "its ancestors) with it" % bad[2]) if bad else "the named child is never unlinked", site=bad[1].site if bad else dl.file,
+                  detail=describe_path(bad[0]) if bad else None)
+
     # ---- R5
     for cn in ("Container", "SectionContainer", "SourceContainer", "LinkContainer"):
         f = ctx.member(cn, "__delitem__")
@@ -190,3 +224,8 @@ def run(M, rep, tier, only=None):
                 refuse += 1
         rep.check(R5, key, refuse > 0 and bad is None, "no wrong-kind refusal before the deletion" if not refuse else
                   "the wrong-kind refusal comes after a write", site=f.file + ":%d" % f.node.lineno)
+
+    # ---- R7: the subtree collection used by the tree deletes is complete (shared with C13.R2)
+    from .common import run_shared
+    from . import c13
+    run_shared(c13, M, rep, tier, {"C13.R2": "C04.R7"})
